@@ -69,6 +69,9 @@ class StubPeerManager:
             return True
         return False
 
+    def peer_is_good(self, peer):
+        return self.contact_triple_is_good(peer.node_id, peer.address, peer.udp_port)
+
     def get_last_replied(self, address, udp_port):
         if self.regime == 'good':
             return 490
@@ -175,10 +178,15 @@ def history(vm, n_ops, hash_bits, k, pool_size, coarse, regime='any', part=(0, 1
     pool = ['1.2.3.%d' % (4 + i) for i in range(pool_size)]
     known = []
 
+    answers = []                 # (contact, does it still answer pings?) - a property of the contact, not of the single probe
+
     async def probe(peer):
-        if vm.new_bool('probe_fails'):
-            raise asyncio.TimeoutError()
-        return True
+        for contact, alive in answers:
+            if contact is peer:
+                if alive:
+                    return True
+                raise asyncio.TimeoutError()
+        raise asyncio.TimeoutError()
 
     for step in range(n_ops):
         op = vm.new_int('op', 0, 1)
@@ -189,11 +197,29 @@ def history(vm, n_ops, hash_bits, k, pool_size, coarse, regime='any', part=(0, 1
                 vm.assume(int.from_bytes(nid, 'big') & (coarse - 1) == 0)
             addr = pool[vm.pick('addr', len(pool))]
             peer = make_kademlia_peer(nid, addr, 4444)
+            present = list(table.get_peers())
+            answers.append((peer, vm.new_bool('answers_pings')))
             try:
                 added = vm.await_(table.add_peer(peer, probe))
             except Exception as e:
                 return 'VIOLATION step %d: add_peer raised %s' % (step + 1, type(e).__name__)
             known.append(peer)
+            now = table.get_peers()
+            for old in present:
+                if old is peer or old.address == addr:
+                    continue
+                gone = True
+                for q in now:
+                    if q is old:
+                        gone = False
+                if gone:
+                    alive = False
+                    for contact, a in answers:
+                        if contact is old:
+                            alive = a
+                            break            # (the lru-cached make_kademlia_peer hands out one object for equal triples: first entry counts, as in probe)
+                    if vm.all_of([alive, old.node_id != nid]):
+                        return 'VIOLATION step %d: a contact that still answers pings was displaced by a newcomer at a different address' % (step + 1)
             if added and not in_table(vm, table, nid):
                 return 'VIOLATION step %d: add_peer reported success but the contact is not in the table' % (step + 1)
         else:
